@@ -231,7 +231,7 @@ def check_case(ctx, case):
 def check_hashseeds(ctx, case):
     models = case[1]
     ctx.nontrivial(True)
-    work = os.path.join(paths.WORK, "C10", f"hs-{ctx.shard}-{os.getpid()}")
+    work = os.path.join(paths.WORK, "C10-hashseed", f"hs-{ctx.shard}-{os.getpid()}")
     os.makedirs(work, exist_ok=True)
     path = os.path.join(work, "models.txt")
     with open(path, "w") as f:
@@ -254,6 +254,11 @@ def check_hashseeds(ctx, case):
                 ctx.fail("hash-seed-dependent", observed=(f"PYTHONHASHSEED={hs}", ["to_ical", "to_ical(sorted=False)", "after add_missing_timezones", "used tzids"][which] if 0 <= which < 4 else which),
                          expected=f"same digest as PYTHONHASHSEED={seeds[0]}", detail=repr(models[i])[:1500])
                 return
+    try:
+        os.remove(path)
+        os.rmdir(work)
+    except OSError:
+        pass
     ctx.count("hash-seed-programs", len(models))
     ctx.count("hash-seed-runs", len(seeds))
 
